@@ -27,7 +27,10 @@ RULE = (
     "n<=400 else ~120 stratified+random}; after each crash a fresh Controller / CharacteristicCacheFile start on the surviving files. "
     "Oracles: restart never raises; pairing data == save #1 or save #2 exactly (never neither); uncrashed round-trip reproduces "
     "every pairing field and the entity map (serialize() equality, config/state numbers, broadcast key); torn/garbled cache => "
-    "empty cache, start-up succeeds. work_units = crash points executed. Non-trivial = crash point strictly inside a save; "
+    "empty cache, start-up succeeds. Further stages: a shorter save after an interrupted save; I/O errors instead of crashes at every operation "
+    "(ENOSPC with a short write, EIO from flush/fsync, EACCES on open/rename, EXDEV on rename) after which the file is the old or the new document and "
+    "the same process can save again; histories of acknowledged cache write-throughs (state number / broadcast key / config number / database only) "
+    "followed by a restart; a newer record handed over for an accessory already held. work_units = crash points and error points executed. Non-trivial = crash point strictly inside a save; "
     "distinct by event-log digest."
 )
 REAL = ["aiohomekit.controller.controller.Controller (save_data, load_data, load_pairing, remove_pairing bookkeeping)",
@@ -174,6 +177,10 @@ def gen_plan(seed: int, tier: str) -> dict:
 
 SHORT_PAIRINGS = [{"alias": "z", "db": None, "rec": {"AccessoryPairingID": "00:00:00:00:00:01", "AccessoryLTPK": "00" * 32, "iOSPairingId": "i", "iOSDeviceLTSK": "11" * 32,
                                                       "iOSDeviceLTPK": "22" * 32, "Connection": "IP", "AccessoryIP": "1.1.1.1", "AccessoryPort": 1}}]
+
+
+def _errname(err: int) -> str:
+    return {5: "EIO", 13: "EACCES", 18: "EXDEV", 28: "ENOSPC"}.get(err, str(err))
 
 
 def prefixes(n: int, r: random.Random, limit: int) -> list[int]:
@@ -424,6 +431,39 @@ def execute(plan: dict, ch: Chooser) -> dict:
                     continue
                 ctx.probe("saves_after_an_interrupted_save")
                 restart_and_load([_snapshot_pairings(c5)], "save after an interrupted save", desc)
+        # ---------------- I/O errors instead of crashes: full disk, failing fsync, refused rename -------------------------
+        err_for = {"open_w": [13, 28], "os_open": [13, 28], "write": [28], "flush": [28, 5], "close": [28], "fsync": [5], "replace": [13, 18], "mkdir": [13]}
+        for i, (kind, pth, n) in enumerate(trace):
+            for err in err_for.get(kind, []):
+                for keep in ([0, max(1, n // 2)] if kind in ("write", "flush", "close") and n else [0]):
+                    c2, _ = do_save2()
+                    fs.fail_at = (i, err, keep)
+                    raised = None
+                    try:
+                        c2.save_data(path)
+                    except simfs.SimCrash:
+                        raise
+                    except BaseException as e:  # noqa: BLE001
+                        raised = e
+                    units += 1
+                    inside += 1
+                    desc = f"{_errname(err)} at op {i}/{len(trace)} {kind} (prefix {keep})"
+                    ctx.event("ioerror", i, kind, err, keep, type(raised).__name__ if raised else None)
+                    ctx.state("ioerror", kind, err, raised is not None)
+                    ctx.probe("io_errors_injected")
+                    # the process lives on: the file on disk is the old or the new document, never garbage
+                    saved = dict(fs.files)
+                    saved_dirs = set(fs.dirs)
+                    restart_and_load([snap1, snap2], "pairing-file save with an I/O error", desc)
+                    # ... and the same process can save again once the error is gone
+                    fs.files, fs.dirs = saved, saved_dirs
+                    fs.restart()
+                    try:
+                        c2.save_data(path)
+                    except BaseException as e:  # noqa: BLE001
+                        ctx.violate("save-raises", f"after-io-error/{type(e).__name__}", f"save_data after {desc} raised {e!r}")
+                        continue
+                    restart_and_load([snap2], "save after an I/O error", desc)
         # ---------------- cache file: crash during write-through -------------------------------
         spec = plan["extra"]["db"]
 
